@@ -5,6 +5,7 @@ import (
 	"errors"
 	"fmt"
 	"hash/fnv"
+	"math"
 	"strings"
 	"time"
 
@@ -77,6 +78,87 @@ func init() {
 	// sweep.pass <id> <cutoff> <n> <batches>: one full sweeper pass with a scripted cut-off; the
 	// application commits batch k at the k-th slice boundary. n must equal the scanner's check
 	// interval (the real slice length with an always-expired lock duration).
+	// sweep.wall <native 0|1> <retention_days float32 bits> <age1,age2,...>: the sweeper's own
+	// wall-clock cut-off (no scripted cut-off). A fresh DBI holds one entry per age token
+	// "<minutes>D" (deletion marker written that many minutes ago) or "<minutes>L" (live entry);
+	// the answer lists the indices of the entries that survive one full sweep. The model gets the
+	// line with the retention period in nanoseconds as the code's own configuration computes it.
+	implOps["sweep.wall"] = func(a []string) string {
+		native := a[0] == "1"
+		conf := config.Sweeper{Enabled: true, RetentionDays: math.Float32frombits(uint32(u64(a[1]))), LockDuration: time.Second, ReleaseDuration: 0}
+		rd := conf.RetentionDuration()
+		rewrittenLine = fmt.Sprintf("sweep.wall %s %d %s", a[0], int64(rd), a[2])
+		env, dir := newEnv(0)
+		defer closeEnv(env, dir)
+		name := "t"
+		if !native {
+			name = "_sync_shadow_t"
+		}
+		toks := strings.Split(a[2], ",")
+		now := time.Now()
+		err := env.Update(func(txn *lmdb.Txn) error {
+			dbi, err := txn.OpenDBI(name, lmdb.Create)
+			if err != nil {
+				return err
+			}
+			for j, t := range toks {
+				mins := u64(t[:len(t)-1])
+				ts := uint64(now.Add(-time.Duration(mins) * time.Minute).UnixNano())
+				var v []byte
+				if t[len(t)-1] == 'D' {
+					v = mkStored(ts, 1, 0, 1, 0, 0, nil)
+				} else {
+					v = mkStored(ts, 1, 0, 0, 0, 0, []byte("v"))
+				}
+				if err := txn.Put(dbi, []byte(fmt.Sprintf("w%04d", j)), v, 0); err != nil {
+					return err
+				}
+			}
+			return nil
+		})
+		if err != nil {
+			return "err app"
+		}
+		sw := sweeper.New("db", conf, env, logrus.StandardLogger(), native)
+		if err := sw.VerifSweepOnce(context.Background()); err != nil {
+			return "err other:" + strings.ReplaceAll(clipStr(err.Error()), " ", "_")
+		}
+		var kept []string
+		err = env.View(func(txn *lmdb.Txn) error {
+			dbi, err := txn.OpenDBI(name, 0)
+			if err != nil {
+				return err
+			}
+			for j := range toks {
+				if _, err := txn.Get(dbi, []byte(fmt.Sprintf("w%04d", j))); err == nil {
+					kept = append(kept, fmt.Sprint(j))
+				}
+			}
+			return nil
+		})
+		if err != nil {
+			return "err dump"
+		}
+		// the property itself: a marker younger than the retention period is never swept,
+		// a live entry never, and an older marker always
+		for j, t := range toks {
+			mins := u64(t[:len(t)-1])
+			has := false
+			for _, k := range kept {
+				has = has || k == fmt.Sprint(j)
+			}
+			age := time.Duration(mins) * time.Minute
+			switch {
+			case t[len(t)-1] == 'L' && !has:
+				return fmt.Sprintf("FAIL live-entry-swept age=%s retention=%s", age, rd)
+			case t[len(t)-1] == 'D' && age < rd && !has:
+				return fmt.Sprintf("FAIL marker-younger-than-retention-swept age=%s retention=%s", age, rd)
+			case t[len(t)-1] == 'D' && age > rd && has:
+				return fmt.Sprintf("FAIL expired-marker-not-swept age=%s retention=%s", age, rd)
+			}
+		}
+		return "ok kept=" + strings.Join(kept, ",")
+	}
 	implOps["sweep.pass"] = func(a []string) string {
 		i := insts[a[0]]
 		cutoff := header.Timestamp(u64(a[1]))
